@@ -26,7 +26,8 @@ mido = bootstrap()
 import mido.ports as mports  # noqa: E402
 import mido.sockets as msock  # noqa: E402
 
-HOSTS = ('', 'localhost', '127.0.0.1', '0.0.0.0', 'example.org', 'a', '10.1.2.3', 'host-name.local')
+HOSTS = ('', 'localhost', '127.0.0.1', '0.0.0.0', 'example.org', 'a', '10.1.2.3', 'host-name.local',
+         '[a]', '[fe80--1]', 'a]', '[b', ' h ', 'h/x', '0', 'h.', 'xn--bcher-kva.example', '%41', 'h\\x')
 PORTS = (1, 2, 80, 1023, 1024, 8080, 9080, 32767, 32768, 65534, 65535)
 CONSUMERS = ('iter', 'receive', 'poll', 'iter_pending', 'iter_break')
 SHAPES = ('note_on', 'control_change', 'program_change', 'pitchwheel', 'sysex', 'songpos', 'note_off')
